@@ -283,7 +283,13 @@ func init() {
 		// a key maps to exactly one packet: the parse phase rejects a key that occurs twice in one table (across pairs and lists)
 		visitorKeepsNoPacketState(w, r, "C05")
 		matchKeysCheckedWhereverCollected(w, r, "C05")
-		matchTableReadFromTheField(w, r, "C05", func(fn *ssa.Function) bool { return isGeneratorFunc(fn) && recvNamedCore(fn) != "LuaWspGenerator" }, "the dispatch emitted for a match field is built from the table of another match field of the same key")
+		genReach := map[*ssa.Function]bool{}
+		if subs, err := c14Subjects(w); err == nil {
+			for _, f := range subs {
+				genReach[f] = true
+			}
+		}
+		matchTableReadFromTheField(w, r, "C05", func(fn *ssa.Function) bool { return genReach[fn] && recvNamedCore(fn) != "LuaWspGenerator" }, "the dispatch emitted for a match field is built from the table of another match field of the same key")
 		fieldsWithTheirPacket(w, wc, r, "C05")
 		r.refile("C12/namespace", "C05/match-keys-unique", func(sr *Report) { c12Namespaces(w, sr) }, func(o Obligation) bool {
 			return strings.Contains(o.Key, "match key")
